@@ -8,7 +8,10 @@ use std::error::Error;
 use std::fs::{self, File};
 use std::path::Path;
 use std::time::SystemTime;
-use std::{borrow::Cow, io::Write};
+use std::{
+    borrow::Cow,
+    io::{Read, Write},
+};
 
 use chrono::{format::StrftimeItems, DateTime, Local};
 
@@ -588,6 +591,10 @@ pub struct Printf {
     output_file: Option<File>,
 }
 
+fn write_padding(out: &mut impl Write, count: usize) -> std::io::Result<()> {
+    std::io::copy(&mut std::io::repeat(b' ').take(count as u64), out).map(|_| ())
+}
+
 impl Printf {
     pub fn new(format: &str, output_file: Option<File>) -> Result<Self, Box<dyn Error>> {
         Ok(Self {
@@ -607,17 +614,15 @@ impl Printf {
                     justify,
                 } => match format_directive(file_info, directive) {
                     Ok(content) => {
-                        if let Some(width) = width {
-                            match justify {
-                                Justify::Left => {
-                                    write!(out, "{content:<width$}").unwrap();
-                                }
-                                Justify::Right => {
-                                    write!(out, "{content:>width$}").unwrap();
-                                }
-                            }
-                        } else {
-                            write!(out, "{content}").unwrap();
+                        // Pad by hand: a `{:width$}` argument panics above u16::MAX.
+                        let padding =
+                            width.map_or(0, |w| w.saturating_sub(content.chars().count()));
+                        if matches!(justify, Justify::Right) {
+                            write_padding(&mut out, padding).unwrap();
+                        }
+                        write!(out, "{content}").unwrap();
+                        if matches!(justify, Justify::Left) {
+                            write_padding(&mut out, padding).unwrap();
                         }
                     }
                     Err(e) => {
